@@ -24,6 +24,8 @@ func main() {
 		cmdBounded(os.Args[2:])
 	case "replay":
 		cmdReplay(os.Args[2:])
+	case "lockorder":
+		cmdLockOrder(os.Args[2:])
 	default:
 		fmt.Println("unknown command")
 		os.Exit(2)
